@@ -352,6 +352,9 @@ class SymReal(float):
 
     # -- comparisons
     def _cmp(s, o, f):
+        if isinstance(o, float) and not isinstance(o, (SymReal, SymFP)) and (o != o or o in (math.inf, -math.inf)):
+            # a finite real against a non-finite float constant: decided without the solver
+            return bool(f(0.0, o))
         e = lift_real(o)
         if e is None:
             return NotImplemented
@@ -370,15 +373,16 @@ class SymReal(float):
         return s._cmp(o, lambda a, b: a >= b)
 
     def __eq__(s, o):
-        try:
-            e = lift_real(o)
-        except HarnessError:
-            raise
+        if isinstance(o, float) and not isinstance(o, (SymReal, SymFP)) and (o != o or o in (math.inf, -math.inf)):
+            return False
+        e = lift_real(o)
         if e is None:
             return NotImplemented
         return ENG.branch(s.expr == e)
 
     def __ne__(s, o):
+        if isinstance(o, float) and not isinstance(o, (SymReal, SymFP)) and (o != o or o in (math.inf, -math.inf)):
+            return True
         e = lift_real(o)
         if e is None:
             return NotImplemented
